@@ -29,6 +29,7 @@ template <class B, class Other> struct world {
     static constexpr size_t NS = 3;
     alignas(F) unsigned char mem[NS][sizeof(F)];
     int state[NS];
+    bool from_moved[NS];   // slot is a copy of a moved-from slot: unspecified value, but initialised storage
     size_t ex[NS][2];
     uint32_t val[NS][4];       // plain-array model: val[slot][x * ey + y]
     uint32_t mat[NS][6];       // stacks with an affine layer on top: the 2x3 matrix is part of the field's value
@@ -131,6 +132,15 @@ template <class B, class Other> struct world {
         for (size_t i = 0; i < NS; i++) {
             if (state[i] != MOVED || buffer(i) == nullptr) continue;
             kept++;
+            if (from_moved[i]) {
+                // a copy of a moved-from slot: every cell it records is initialised (a branch on each: UNINIT-DECISION otherwise)
+                auto & lay = layout_of_data(const_cast<typename B::owning_data_t &>(at(i).backend()));
+                size_t n = lay.get_backend().get_configuration()[0];
+                vf_assert(n <= 4, base + 4);
+                const uint32_t * raw = reinterpret_cast<const uint32_t *>(buffer(i));
+                for (size_t k = 0; k < n && k < 4; k++)
+                    if (raw[k] == 0x7fc12345u) vf_observe_u64(k);
+            }
             for (size_t j = 0; j < NS; j++)
                 if (j != i && state[j] != EMPTY && buffer(j) != nullptr) vf_assert(buffer(i) != buffer(j), base + 3);
         }
@@ -139,15 +149,18 @@ template <class B, class Other> struct world {
 
     void apply(size_t op, size_t a, size_t b)
     {
+        if (op != OP_WRITE && op != OP_COPY_ASSIGN) from_moved[a] = false;
         switch (op) {
         case OP_CREATE:
             vf_assume(state[a] == EMPTY);
             create(a, vf_nondet_range(1, 2), vf_nondet_range(1, 2));
             break;
         case OP_COPY_CONSTRUCT:
-            vf_assume(state[a] == EMPTY && state[b] == LIVE);
+            // the source may be moved-from (the library copies a null buffer as "recorded size, zero cells"): the copy is then
+            // itself of unspecified value, but owns whatever it holds and every cell it records is initialised
+            vf_assume(state[a] == EMPTY && state[b] != EMPTY);
             new (mem[a]) F(at(b));
-            copy_model(a, b); state[a] = LIVE;
+            copy_model(a, b); state[a] = state[b]; from_moved[a] = state[b] == MOVED;
             break;
         case OP_MOVE_CONSTRUCT:
             vf_assume(state[a] == EMPTY && state[b] == LIVE);
@@ -155,9 +168,9 @@ template <class B, class Other> struct world {
             copy_model(a, b); state[a] = LIVE; state[b] = MOVED;
             break;
         case OP_COPY_ASSIGN:
-            vf_assume(state[a] != EMPTY && state[b] == LIVE);      // a == b: self-assignment
+            vf_assume(state[a] != EMPTY && state[b] != EMPTY);      // a == b: self-assignment; b may be moved-from (see above)
             at(a) = at(b);
-            copy_model(a, b); state[a] = LIVE;
+            if (a != b) { copy_model(a, b); from_moved[a] = state[b] == MOVED; state[a] = state[b]; }
             break;
         case OP_MOVE_ASSIGN:
             vf_assume(state[a] != EMPTY && state[b] == LIVE);
@@ -255,7 +268,7 @@ template <int T, int OP, size_t NSLOTS> static void step_h()
     using W = world<B, typename ftype<T>::other>;
     static W w;
     w.live0 = vf_heap_live();
-    for (size_t i = 0; i < W::NS; i++) w.state[i] = EMPTY;
+    for (size_t i = 0; i < W::NS; i++) { w.state[i] = EMPTY; w.from_moved[i] = false; }
     for (size_t i = 0; i < NSLOTS; i++) {
         size_t st = vf_nondet_range(0, 2);
         if (st == EMPTY) continue;
@@ -280,7 +293,7 @@ template <int T, size_t LEN, size_t NSLOTS> static void hist_h()
     using W = world<B, typename ftype<T>::other>;
     static W w;
     w.live0 = vf_heap_live();
-    for (size_t i = 0; i < W::NS; i++) w.state[i] = EMPTY;
+    for (size_t i = 0; i < W::NS; i++) { w.state[i] = EMPTY; w.from_moved[i] = false; }
     for (size_t step = 0; step < LEN; step++) {
         size_t op = step == 0 ? size_t(OP_CREATE) : vf_nondet_range(0, NOPS - 1);
         size_t a = vf_nondet_range(0, NSLOTS - 1), b = vf_nondet_range(0, NSLOTS - 1);
